@@ -318,6 +318,15 @@ def mergeCounts (parts : List (Part F)) (unalignedReads : Nat) : Part F :=
     notAligned := if unalignedReads > 0 then unalignedReads else natSum (parts.map (·.notAligned)),
     usable := natSum (parts.map (·.usable)) }
 
+/-- `merge_counts` of the tree BEFORE the repair `fix_merge_header`: `merge_files` counted every leading line of a part
+    file that starts with `#` as a header line, so the leading feature rows whose id starts with `#` (`isHashLike`) were
+    skipped together with the header in every part but the first one of the visiting order -/
+def mergeCountsOrig (isHashLike : F → Bool) (parts : List (Part F)) (unalignedReads : Nat) : Part F :=
+  { mergeCounts parts unalignedReads with
+    rows := match parts with
+      | [] => []
+      | p :: ps => p.rows ++ ps.flatMap (fun q => q.rows.dropWhile (fun r => isHashLike r.1)) }
+
 /-! ### convert_counts_to_tpm (ungrouped) on the merged file -/
 
 def ratSum : List Rat → Rat
@@ -327,6 +336,11 @@ def ratSum : List Rat → Rat
 /-- feature rows seen by both loops: they stop at the first line starting with `_` -/
 def tpmInputRows (isStatLike : F → Bool) (rows : List (F × Int)) : List (F × Int) :=
   rows.takeWhile (fun r => !isStatLike r.1)
+
+/-- the rows both loops of the tree BEFORE the repair `fix_tpm_header` looked at: `if line.startswith('#'): continue`
+    skipped every feature row whose id starts with `#` (the second loop copied it into the TPM file as a header line) -/
+def tpmInputRowsOrig (isStatLike isHashLike : F → Bool) (rows : List (F × Int)) : List (F × Int) :=
+  (rows.takeWhile (fun r => !isStatLike r.1)).filter (fun r => !isHashLike r.1)
 
 /-- `float(fs[1])` of a printed count -/
 def printedValue (h : Int) : Rat := (h : Rat) / 100
@@ -356,6 +370,16 @@ structure TpmTable (F : Type) where
 def countsToTpm (norm : NormalizationMethod) (outputZeroes : Bool) (isStatLike : F → Bool)
     (rows : List (F × Int)) (usable : Nat) : TpmTable F :=
   let inp := tpmInputRows isStatLike rows
+  let sf := scaleFactor norm usable (totalCounts inp)
+  { rows := inp.filterMap (fun r =>
+      let tpm := sf * printedValue r.2
+      if !outputZeroes && tpm == 0 then none else some (r.1, tpm)),
+    unassigned := unassignedTpm norm usable inp }
+
+/-- `convert_counts_to_tpm` of the tree BEFORE the repair `fix_tpm_header` -/
+def countsToTpmOrig (norm : NormalizationMethod) (outputZeroes : Bool) (isStatLike isHashLike : F → Bool)
+    (rows : List (F × Int)) (usable : Nat) : TpmTable F :=
+  let inp := tpmInputRowsOrig isStatLike isHashLike rows
   let sf := scaleFactor norm usable (totalCounts inp)
   { rows := inp.filterMap (fun r =>
       let tpm := sf * printedValue r.2
@@ -401,6 +425,17 @@ def fcTranscripts : List (F × List R) → List (R × Nat) → List (R × List F
     `transcriptReads` = `transcript_read_ids` (read ids only), `cnt` = `read_assignment_counts`,
     `models` = ids of `transcript_model_storage`; read ids are assumed non-empty. -/
 def forwardCounts (transcriptReads : List (F × List R)) (cnt : List (R × Nat)) (models : List F) :
+    List (Event F) :=
+  let (cnt', amb, out) := fcTranscripts transcriptReads cnt [] []
+  -- `list(dict.fromkeys(ambiguous_assignments[read_id][1:]))`: the DISTINCT models, first listing kept (repair
+  -- `fix_forward_dup`: a read listed twice under one model - two alignment records of one read id - is shared by
+  -- the distinct models only)
+  out ++ amb.map (fun p => Event.raw false (dedup p.2))
+      ++ [Event.unassigned (cnt'.filter (fun p => p.2 == 0)).length, Event.confirm models]
+
+/-- `forward_counts` of the tree BEFORE the repair `fix_forward_dup`: the list of a read's models was passed on with
+    repetitions (`[T, T]` for a read with two alignment records under the one model `T`: an "ambiguous" call) -/
+def forwardCountsOrig (transcriptReads : List (F × List R)) (cnt : List (R × Nat)) (models : List F) :
     List (Event F) :=
   let (cnt', amb, out) := fcTranscripts transcriptReads cnt [] []
   out ++ amb.map (fun p => Event.raw false p.2)
